@@ -211,6 +211,24 @@ class Engine(object):
         for c, d in facts.crates.items():
             for b in d["bodies"]:
                 self.by_dp[b["dp"]] = facts.bodies[b["path"]]
+        # one canonical pretty name per callee def-path (re-exports give several spellings)
+        names = {}
+        for b in facts.bodies.values():
+            for blk in b.blocks:
+                t = blk["term"]
+                if t["t"] == "call" and "callee" in t:
+                    if t.get("res_kind") in ("item", "closure_once", "shim", "fnptr") and t.get("resolved"):
+                        names.setdefault(t["resolved_dp"], set()).add(strip_generics(t["resolved"]))
+                    names.setdefault(t["callee_dp"], set()).add(strip_generics(t["callee"]))
+        self.canon = {}
+        for dp, ns in names.items():
+            if dp in self.by_dp:
+                self.canon[dp] = self.by_dp[dp].path
+                continue
+            crate = dp.split("::")[0]
+            pref = [n for n in ns if n.startswith(crate + "::") or n.startswith("<" + crate + "::")]
+            cands = pref or list(ns)
+            self.canon[dp] = sorted(cands, key=lambda n: (len(n), n))[0]
         self.opaque = set(opaque)      # pretty paths of workspace functions that must stay atomic
         self.max_paths = max_paths
         self.max_depth = max_depth
@@ -827,8 +845,8 @@ class Engine(object):
             dp, pretty = t["resolved_dp"], t["resolved"]
         else:
             dp, pretty = t["callee_dp"], t["callee"]
-        name = strip_generics(pretty)
-        trait_name = strip_generics(t["callee"])
+        name = self.canon.get(dp) or strip_generics(pretty)
+        trait_name = self.canon.get(t["callee_dp"]) or strip_generics(t["callee"])
         ctor = t.get("ctor")
         return self.call_named(st, dp, name, trait_name, ctor, args, site, depth, t)
 
